@@ -11,12 +11,13 @@ ghost field Spec.sid int
 ufunc sidOf(yaml string) int
 ufunc parses(yaml string) bool
 ufunc wants(f int, e *ObjectEntity) bool
+ufunc kindOfYaml(yaml string) string
 
 func (s *Supervisor) NewObjectEntityFromConfig(config string) (entity *ObjectEntity, err error)
   trusted
   flag allocates
   ensures (err == nil) <==> parses(config)
-  ensures err == nil ==> entity != nil && fresh(entity) && entity.spec != nil && entity.spec.sid == sidOf(config)
+  ensures err == nil ==> entity != nil && fresh(entity) && entity.spec != nil && entity.spec.sid == sidOf(config) && entity.spec.meta != nil && entity.spec.meta.Kind == kindOfYaml(config)
   ensures err != nil ==> entity == nil
 
 func (e *ObjectEntity) Spec() (s *Spec)
@@ -36,29 +37,49 @@ func (f ObjectEntityWatcherFilter) call(entity *ObjectEntity) (ok bool)
 
 ghost var eDom set[string]
 ghost var eVal mmap[string]int
+// the classification handed to the watchers (captured when the watcher loop starts)
+ghost var gDeleted set[string]
+ghost var gCreated set[string]
+ghost var gUpdated set[string]
+ghost var gDeletedEnt mmap[string]int
 
-pred entitiesWF(or *ObjectRegistry) := or.entities != nil && (forall n string :: n in or.entities ==> or.entities[n] != nil && or.entities[n].spec != nil)
+pred entitiesWF(or *ObjectRegistry) := or.entities != nil && (forall n string :: n in or.entities ==> or.entities[n] != nil && or.entities[n].spec != nil && or.entities[n].spec.meta != nil)
 pred watchersWF(or *ObjectRegistry) := forall w string :: w in or.watchers ==> or.watchers[w] != nil && or.watchers[w].entities != nil && or.watchers[w].entities != or.entities && or.watchers[w].filter != nil
 
 func (or *ObjectRegistry) applyConfig(config map[string]string)
   flag allocates
   requires or != nil && entitiesWF(or) && watchersWF(or) && or.super != nil
-  modifies eDom, eVal, entries(or.entities), allof("map<string,*supervisor.ObjectEntity>#dom"), allof("map<string,*supervisor.ObjectEntity>#val"), allof("map<string,*supervisor.ObjectEntity>#card")
+  modifies eDom, eVal, gDeleted, gCreated, gUpdated, gDeletedEnt, entries(or.entities), allof("map<string,*supervisor.ObjectEntity>#dom"), allof("map<string,*supervisor.ObjectEntity>#val"), allof("map<string,*supervisor.ObjectEntity>#card")
   ensures disappeared-names-are-removed: forall n string :: !(n in config) ==> !(n in or.entities)
   ensures unparsable-config-leaves-the-object-alone: forall n string :: n in config && !parses(config[n]) ==> ((n in or.entities) <==> old(n in or.entities)) && or.entities[n] == old(or.entities[n])
   ensures unchanged-spec-keeps-the-same-entity: forall n string :: n in config && parses(config[n]) && old(n in or.entities) && old(or.entities[n].spec.sid) == sidOf(config[n]) ==> n in or.entities && or.entities[n] == old(or.entities[n])
   ensures new-or-changed-spec-gets-a-fresh-entity: forall n string :: n in config && parses(config[n]) && !(old(n in or.entities) && old(or.entities[n].spec.sid) == sidOf(config[n])) ==> n in or.entities && fresh(or.entities[n]) && or.entities[n].spec.sid == sidOf(config[n])
   ensures live-set-is-the-snapshot: forall n string :: n in or.entities ==> n in config
   ensures wf: entitiesWF(or)
+  ensures disappeared-name-is-a-delete: forall n string :: old(n in or.entities) && !(n in config) ==> gDeleted[n] && gDeletedEnt[n] == old(ref(or.entities[n])) && !gCreated[n] && !gUpdated[n]
+  ensures new-name-is-a-create: forall n string :: n in config && parses(config[n]) && !old(n in or.entities) ==> gCreated[n] && !gDeleted[n] && !gUpdated[n]
+  ensures same-kind-spec-change-is-an-update: forall n string :: n in config && parses(config[n]) && old(n in or.entities) && old(or.entities[n].spec.sid) != sidOf(config[n]) && old(or.entities[n].spec.meta.Kind) == kindOfYaml(config[n]) ==> gUpdated[n] && !gCreated[n] && !gDeleted[n]
+  ensures kind-change-is-close-plus-init: forall n string :: n in config && parses(config[n]) && old(n in or.entities) && old(or.entities[n].spec.sid) != sidOf(config[n]) && old(or.entities[n].spec.meta.Kind) != kindOfYaml(config[n]) ==> gDeleted[n] && gDeletedEnt[n] == old(ref(or.entities[n])) && gCreated[n] && !gUpdated[n]
+  ensures unchanged-or-unparsable-is-no-event: forall n string :: n in config && (!parses(config[n]) || (old(n in or.entities) && old(or.entities[n].spec.sid) == sidOf(config[n]))) ==> !gDeleted[n] && !gCreated[n] && !gUpdated[n]
   invariant[1] wf: entitiesWF(or) && watchersWF(or) && deleted != nil && deleted != or.entities
   invariant[1] visited-gone: forall k int :: 0 <= k && k < idx$1 && !(keys$1[k] in config) ==> !(keys$1[k] in or.entities)
   invariant[1] others-kept: forall n string :: (n in config || (dom$1[n] && pos$1[n] >= idx$1)) ==> ((n in or.entities) <==> old(n in or.entities)) && or.entities[n] == old(or.entities[n])
+  invariant[1] deleted-so-far: forall n string :: (n in deleted) <==> (old(n in or.entities) && !(n in config) && dom$1[n] && pos$1[n] < idx$1)
+  invariant[1] deleted-entity: forall n string :: n in deleted ==> deleted[n] == old(or.entities[n])
+  invariant[1] others-empty: created != nil && updated != nil && created != or.entities && updated != or.entities && deleted != created && deleted != updated && created != updated && (forall n string :: !(n in created) && !(n in updated))
   invariant[1] no-new: forall n string :: n in or.entities ==> old(n in or.entities)
   invariant[2] wf: entitiesWF(or) && watchersWF(or) && created != nil && updated != nil && created != or.entities && updated != or.entities
+  invariant[2] events-so-far: forall n string :: ((n in created) <==> (n in config && pos$2[n] < idx$2 && parses(config[n]) && (!old(n in or.entities) || (old(or.entities[n].spec.sid) != sidOf(config[n]) && old(or.entities[n].spec.meta.Kind) != kindOfYaml(config[n]))))) && ((n in updated) <==> (n in config && pos$2[n] < idx$2 && parses(config[n]) && old(n in or.entities) && old(or.entities[n].spec.sid) != sidOf(config[n]) && old(or.entities[n].spec.meta.Kind) == kindOfYaml(config[n])))
+  invariant[2] deletes-so-far: forall n string :: (n in deleted) <==> ((old(n in or.entities) && !(n in config)) || (n in config && pos$2[n] < idx$2 && parses(config[n]) && old(n in or.entities) && old(or.entities[n].spec.sid) != sidOf(config[n]) && old(or.entities[n].spec.meta.Kind) != kindOfYaml(config[n])))
+  invariant[2] deleted-entity: forall n string :: n in deleted ==> deleted[n] == old(or.entities[n])
   invariant[2] only-config-names: forall n string :: n in or.entities ==> n in config
   invariant[2] visited: forall k int :: 0 <= k && k < idx$2 ==> (let n = keys$2[k] in (parses(config[n]) ? (n in or.entities && ((old(n in or.entities) && old(or.entities[n].spec.sid) == sidOf(config[n])) ? or.entities[n] == old(or.entities[n]) : (fresh(or.entities[n]) && or.entities[n].spec.sid == sidOf(config[n])))) : (((n in or.entities) <==> old(n in or.entities)) && or.entities[n] == old(or.entities[n]))))
   invariant[2] unvisited: forall n string :: n in config && pos$2[n] >= idx$2 ==> ((n in or.entities) <==> old(n in or.entities)) && or.entities[n] == old(or.entities[n])
   ghost at loop[3]: eDom := domOf(or.entities)
+  ghost at loop[3]: gDeleted := domOf(deleted)
+  ghost at loop[3]: gCreated := domOf(created)
+  ghost at loop[3]: gUpdated := domOf(updated)
+  ghost at loop[3]: gDeletedEnt := valsOf(deleted)
   ghost at loop[3]: eVal := valsOf(or.entities)
   invariant[3] kept: domOf(or.entities) == eDom && valsOf(or.entities) == eVal && watchersWF(or) && or.entities != nil && deleted != nil && created != nil && updated != nil && deleted != or.entities && created != or.entities && updated != or.entities
   closure[1] ()
